@@ -758,40 +758,6 @@ Proof.
 Qed.
 
 (* ------------------------------------------------------------------ *)
-(* ---- C19_spelling_same_configurable ---- *)
-(* ------------------------------------------------------------------ *)
-Theorem C19_spelling_same_configurable : forall reg c1 c2 sel1 sel2 reg1 full1 rp1 reg2 full2 rp2 i,
-  reg_wf reg -> c_dynamic c1 = true -> c_dynamic c2 = true ->
-  get_configurable reg c1 sel1 = DOk (reg1, full1, rp1) ->
-  (exists root d chain, tget (hd "" (split_dot sel1)) (c_table c1) = Some (root, d) /\ follow root (tl (split_dot sel1)) [] = Some chain /\ last chain POther = PFunc i /\
-     (* not a method: its parent in the chain is not a class *) (forall p, nth_error (rev chain) 1 = Some p -> is_class p = false)) ->
-  get_configurable reg1 c2 sel2 = DOk (reg2, full2, rp2) ->
-  (exists root d chain, tget (hd "" (split_dot sel2)) (c_table c2) = Some (root, d) /\ follow root (tl (split_dot sel2)) [] = Some chain /\ last chain POther = PFunc i) ->
-  full2 = full1 /\ reg2 = reg1.
-Proof.
-  intros reg c1 c2 sel1 sel2 reg1 full1 rp1 reg2 full2 rp2 i _ Hd1 Hd2 H1 [root1 [d1 [chain1 [Ht1 [Hf1 [Hl1 Hnm]]]]]]
-         H2 [root2 [d2 [chain2 [Ht2 [Hf2 Hl2]]]]].
-  (* after the first resolution the function is in the inverse registry under full1 *)
-  assert (Hkey : exists e, find_obj i reg1 = Some e /\ ce_sel e = full1).
-  { destruct (get_configurable_dyn_inv _ _ _ _ _ _ Hd1 H1) as [root [d [chain [i' [Ht [Hf [Hi [[e [Hfo [Hr [Hfull _]]]]|[Hfo Hreg]]]]]]]]];
-      rewrite Ht1 in Ht; inversion Ht; subst root d; rewrite Hf1 in Hf; inversion Hf; subst chain;
-      rewrite Hl1 in Hi; cbn [obj_id] in Hi; inversion Hi; subst i'.
-    - subst reg1 full1. exists e. auto.
-    - rewrite register_chain_unfold in Hreg. rewrite rev_removelast in Hreg.
-      destruct (rev chain1) as [|leaf rc] eqn:Erc; [discriminate|]. cbn [tl] in Hreg.
-      destruct rc as [|parent rp0]; [discriminate|].
-      rewrite (last_rev_hd _ _ _ _ POther Erc) in Hl1. subst leaf.
-      rewrite (Hnm parent eq_refl), andb_false_r in Hreg.
-      destruct (do_one_inv _ _ _ _ _ _ _ _ Hreg) as [i0 [entry [Hi0 [Hse [Hoe [[e [Hfs [Ho Hr]]]|[Hfs Hr]]]]]]];
-        cbn [obj_id] in Hi0; injection Hi0 as Hi0.
-      + exfalso. destruct (find_sel_Some _ _ _ Hfs) as [Hin _]. rewrite find_obj_None in Hfo. apply (Hfo _ Hin). congruence.
-      + subst reg1. exists entry. split; [apply find_obj_snoc_same; congruence|exact Hse]. }
-  destruct Hkey as [e [Hfo He]].
-  unfold get_configurable in H2. rewrite Hd2 in H2. cbn [negb] in H2. cbv zeta in H2.
-  rewrite Ht2, Hf2, Hl2 in H2. cbn [obj_id] in H2. rewrite Hfo in H2. inversion H2; subst. auto.
-Qed.
-
-(* ------------------------------------------------------------------ *)
 (* ---- what a FAILED resolution leaves registered ---- *)
 (* ------------------------------------------------------------------ *)
 (* failed_reg is the registry itself, or the registry after ONE (successful) plain registration *)
@@ -1070,6 +1036,100 @@ Proof.
 Qed.
 
 (* ------------------------------------------------------------------ *)
+(* ---- C19_spelling_same_configurable ---- *)
+(* ------------------------------------------------------------------ *)
+(* the selector do_one registers under: the one the object already has, if it has one (F22) *)
+Lemma do_one_sel_spec : forall d reg names o m reg' sel rp, do_one d reg names o m = DOk (reg', sel, rp) ->
+  exists i, obj_id o = Some i /\
+    (forall e0, find_obj i reg = Some e0 -> sel = ce_sel e0) /\
+    (find_obj i reg = None ->
+       sel = (join_dot (partial_path d :: removelast (tl names)) ++ "." ++ last names "")%string).
+Proof.
+  intros d reg names o m reg' sel rp H. unfold do_one in H.
+  destruct (obj_id o) as [i|]; [|discriminate]. cbv zeta in H. exists i. split; [reflexivity|].
+  destruct (find_obj i reg) as [e0|] eqn:Efo.
+  - split; [|discriminate]. intros e1 He1. injection He1 as <-.
+    destruct (find_sel (ce_sel e0) reg) as [e|]; [destruct (Nat.eqb (ce_obj e) i); [|discriminate]|]; inversion H; reflexivity.
+  - split; [discriminate|]. intros _.
+    match type of H with context [find_sel ?s reg] => destruct (find_sel s reg) as [e|] end;
+      [destruct (Nat.eqb (ce_obj e) i); [|discriminate]|]; inversion H; reflexivity.
+Qed.
+(* any object (function, method or class) resolved through one spelling and then through another one: the second
+   resolution hands back the same configurable and changes nothing.  (The chain of the first resolution is not that of a
+   method, or it carries distinct ids -- as every chain of a universe with class_ids_ok does.) *)
+Theorem C19_spelling_same_configurable : forall reg c1 c2 sel1 sel2 reg1 full1 rp1 reg2 full2 rp2 i,
+  reg_wf reg -> c_dynamic c1 = true -> c_dynamic c2 = true ->
+  get_configurable reg c1 sel1 = DOk (reg1, full1, rp1) ->
+  (exists root d chain, tget (hd "" (split_dot sel1)) (c_table c1) = Some (root, d) /\ follow root (tl (split_dot sel1)) [] = Some chain /\
+     obj_id (last chain POther) = Some i /\ (is_method_chain chain = false \/ distinct_ids chain = true)) ->
+  get_configurable reg1 c2 sel2 = DOk (reg2, full2, rp2) ->
+  (exists root d chain, tget (hd "" (split_dot sel2)) (c_table c2) = Some (root, d) /\ follow root (tl (split_dot sel2)) [] = Some chain /\
+     obj_id (last chain POther) = Some i) ->
+  full2 = full1 /\ reg2 = reg1.
+Proof.
+  intros reg c1 c2 sel1 sel2 reg1 full1 rp1 reg2 full2 rp2 i _ Hd1 Hd2 H1 [root1 [d1 [chain1 [Ht1 [Hf1 [Hl1 Hside]]]]]]
+         H2 [root2 [d2 [chain2 [Ht2 [Hf2 Hl2]]]]].
+  (* after the first resolution the object is in the inverse registry under full1 *)
+  assert (Hkey : exists e, find_obj i reg1 = Some e /\ ce_sel e = full1).
+  { destruct (get_configurable_dyn_inv _ _ _ _ _ _ Hd1 H1) as [root [d [chain [i' [Ht [Hf [Hi [[e [Hfo [Hr [Hfull _]]]]|[Hfo Hreg]]]]]]]]];
+      rewrite Ht1 in Ht; inversion Ht; subst root d; rewrite Hf1 in Hf; inversion Hf; subst chain;
+      rewrite Hl1 in Hi; inversion Hi; subst i'.
+    - subst reg1 full1. exists e. auto.
+    - destruct Hside as [Hnm|Hids].
+      + rewrite register_chain_unfold in Hreg. unfold is_method_chain in Hnm.
+        destruct (rev chain1) as [|leaf rc] eqn:Erc; [discriminate|].
+        destruct (rev (removelast chain1)) as [|parent rp0]; [discriminate|].
+        rewrite Hnm in Hreg. rewrite (last_rev_hd _ _ _ _ POther Erc) in Hl1.
+        destruct (do_one_inv _ _ _ _ _ _ _ _ Hreg) as [i0 [entry [Hi0 [Hse [Hoe [[e [Hfs [Ho Hr]]]|[Hfs Hr]]]]]]];
+          rewrite Hl1 in Hi0; injection Hi0 as Hi0; subst i0.
+        * exfalso. destruct (find_sel_Some _ _ _ Hfs) as [Hin _]. rewrite find_obj_None in Hfo. exact (Hfo _ Hin Ho).
+        * subst reg1. exists entry. split; [apply find_obj_snoc_same; exact Hoe|exact Hse].
+      + destruct (register_chain_appended _ _ _ _ _ _ _ i Hreg Hl1 Hfo Hids) as [reg0 [e [Hr [Hse [Hoe _]]]]].
+        subst reg1. exists e. split; [apply find_obj_snoc_same; exact Hoe|exact Hse]. }
+  destruct Hkey as [e [Hfo He]].
+  unfold get_configurable in H2. rewrite Hd2 in H2. cbn [negb] in H2. cbv zeta in H2.
+  rewrite Ht2, Hf2, Hl2 in H2. rewrite Hfo in H2. inversion H2; subst. auto.
+Qed.
+(* F22, the clause the known finding was a deviation from: a class that is already registered -- through whatever
+   spelling -- and is now reached as the parent of an unregistered method through (possibly) another spelling KEEPS its
+   selector and its import source (the entry found for its object afterwards has them); the method is registered under
+   <the class's selector>.<method name> *)
+Theorem C19_class_keeps_selector_via_method : forall reg c sel reg' full rp root d chain leaf parent rest i cid ec,
+  c_dynamic c = true -> get_configurable reg c sel = DOk (reg', full, rp) ->
+  tget (hd "" (split_dot sel)) (c_table c) = Some (root, d) -> follow root (tl (split_dot sel)) [] = Some chain ->
+  rev chain = leaf :: parent :: rest ->
+  is_func leaf = true -> is_class parent = true -> obj_id leaf = Some i -> obj_id parent = Some cid -> i <> cid ->
+  find_obj i reg = None -> find_obj cid reg = Some ec ->
+  full = (ce_sel ec ++ "." ++ last (split_dot sel) "")%string /\
+  (exists e', find_obj cid reg' = Some e' /\ ce_sel e' = ce_sel ec /\ ce_src e' = ce_src ec /\ ce_home e' = ce_home ec) /\
+  (exists em, find_obj i reg' = Some em /\ ce_sel em = full).
+Proof.
+  intros reg c sel reg' full rp root d chain leaf parent rest i cid ec Hd H Ht Hf Hrev Hfl Hcp Hi Hcid Hne Hfo Hfc.
+  unfold get_configurable in H. rewrite Hd in H. cbn [negb] in H. cbv zeta in H. rewrite Ht, Hf in H.
+  rewrite (last_rev_hd _ _ _ _ POther Hrev), Hi, Hfo in H.
+  rewrite register_chain_unfold, rev_removelast, Hrev in H. cbn [tl] in H. rewrite Hfl, Hcp in H. cbn [andb] in H.
+  destruct (do_one d reg (removelast (split_dot sel)) parent false) as [[[reg1 csel] rp1]|err] eqn:Ed; [|discriminate].
+  rewrite Hi in H. cbv zeta in H.
+  destruct (do_one_sel_spec _ _ _ _ _ _ _ _ Ed) as [cid' [Hcid' [Hsel _]]]. rewrite Hcid in Hcid'. injection Hcid' as <-.
+  pose proof (Hsel _ Hfc) as Hcsel. subst csel.
+  (* the class's entry after do_one *)
+  assert (Hcls : exists e', find_obj cid reg1 = Some e' /\ ce_sel e' = ce_sel ec /\ ce_src e' = ce_src ec /\ ce_home e' = ce_home ec).
+  { unfold do_one in Ed. rewrite Hcid in Ed. cbv zeta in Ed. rewrite Hfc in Ed.
+    destruct (find_sel (ce_sel ec) reg) as [e|]; [destruct (Nat.eqb (ce_obj e) cid); [|discriminate]|];
+      inversion Ed; subst reg1; eexists; (split; [apply find_obj_snoc_same; reflexivity|]); repeat split; reflexivity. }
+  assert (Hfo1 : find_obj i reg1 = None).
+  { apply find_obj_None. intros x Hx. destruct (do_one_objs _ _ _ _ _ _ _ _ Ed _ Hx) as [Hin|Hp].
+    - rewrite find_obj_None in Hfo. exact (Hfo _ Hin).
+    - rewrite Hcid in Hp. injection Hp as Hp. congruence. }
+  rewrite Hfo1 in H.
+  match type of H with context [find_sel ?s0 reg1] => destruct (find_sel s0 reg1) as [e2|] eqn:Efs end; [discriminate|].
+  inversion H; subst reg' full rp; clear H. split; [reflexivity|]. split.
+  - destruct Hcls as [e' [He' Hrest]]. exists e'. split; [|exact Hrest].
+    rewrite find_obj_snoc. cbn [ce_obj]. destruct (Nat.eqb i cid) eqn:E; [apply Nat.eqb_eq in E; contradiction|exact He'].
+  - eexists. split; [apply find_obj_snoc_same; reflexivity|reflexivity].
+Qed.
+
+(* ------------------------------------------------------------------ *)
 (* ---- the static branch of get_configurable (no dynamic registration in the file) ---- *)
 (* ------------------------------------------------------------------ *)
 From GinV Require Import Model.SelectorMapSpec Proofs.SelectorMapLemmas Proofs.SelectorMapProofs.
@@ -1147,9 +1207,8 @@ Qed.
 (* ---- references over a whole run ---- *)
 (* ------------------------------------------------------------------ *)
 (* the invariant asked for: every referenced selector is the LATEST registration of its object.  It is NOT an
-   invariant of run_stmts (Counterexamples.refs_ok_latest_not_invariant): a reference created by a binding is
-   not re-pointed by the registration its own binding target triggers, and the static branch hands back
-   whatever selector matches. *)
+   invariant of run_stmts (Counterexamples.refs_ok_latest_not_invariant): the static branch hands back
+   whatever selector matches, also an older registration of an object registered twice from Python. *)
 Definition refs_ok (reg : list centry) (refs : list ((string * string) * string * string)) : Prop :=
   forall x, In x refs -> latest reg (snd x).
 (* what IS invariant: every referenced selector is registered (or one of gin's own three) *)
@@ -1440,50 +1499,52 @@ Module Counterexamples.
     - vm_compute in E. discriminate.
   Qed.
 
-  (* (3) re-registration under an OLDER selector of the object: the class (object 1) is registered as a.C and, later, as
-         b.C; a reference names b.C (the latest).  A file importing a configures the unregistered method a.C.k: the class is
-         re-registered under a.C, which becomes its latest registration (as gin's _INVERSE_REGISTRY[cls]); the reference
-         is re-pointed b.C -> a.C. *)
+  (* (3) a class (object 1) registered twice from outside, as a.C and, later, as b.C; a reference names b.C (the latest).
+         A file importing a configures the unregistered method a.C.k.  Repaired code (F22): the class keeps the
+         registration it has (gin's _INVERSE_REGISTRY[cls], i.e. b.C), the method is homed under it (b.C.k), nothing is
+         re-pointed.  The code before the repair re-registered the class under the current spelling a.C, which became
+         its latest registration, and re-pointed the reference b.C -> a.C. *)
   Definition cx_cls2 : pyobj := PClass 1 [("k", PFunc 7)].
   Definition cx_da : dimport := {| d_module := "a"; d_from := false; d_alias := None |}.
   Definition cx_eA : centry := {| ce_sel := "a.C"; ce_obj := 1; ce_method := false; ce_src := None; ce_home := ("", "") |}.
   Definition cx_eB : centry := {| ce_sel := "b.C"; ce_obj := 1; ce_method := false; ce_src := None; ce_home := ("", "") |}.
   Definition cx_reg2 : list centry := [cx_eA; cx_eB].
   Definition cx_ctx2 : dctx := {| c_dynamic := true; c_imports := [cx_da]; c_table := [("a", (PMod [("C", cx_cls2)], cx_da))] |}.
-  Eval vm_compute in
-    match get_configurable cx_reg2 cx_ctx2 "a.C.k" with
+  Definition show3 (r : dres (list centry * string * list (string * string))) :=
+    match r with
     | DOk (reg', full, rp) => Some (map (fun e => (ce_sel e, ce_obj e)) reg', full, rp, retarget1 rp "b.C",
                                     option_map ce_sel (find_obj 1 reg'))
     | DErr _ => None end.
+  Eval vm_compute in (show3 (get_configurable cx_reg2 cx_ctx2 "a.C.k"), show3 (get_configurable_orig cx_reg2 cx_ctx2 "a.C.k")).
   Lemma cx_reg2_wf : reg_wf cx_reg2.
   Proof.
     unfold reg_wf, cx_reg2. cbn [map ce_sel cx_eA cx_eB].
     constructor; [intros [H|[]]; discriminate|constructor; [intros []|constructor]].
   Qed.
-  Lemma respelled_class_is_latest : forall reg' full rp,
+  Lemma respelled_class_keeps_latest : forall reg' full rp,
     get_configurable cx_reg2 cx_ctx2 "a.C.k" = DOk (reg', full, rp) ->
-    retarget1 rp "b.C" = "a.C" /\ option_map ce_sel (find_obj 1 reg') = Some "a.C".
-  Proof. intros reg' full rp H. vm_compute in H. inversion H; subst. split; reflexivity. Qed.
+    full = "b.C.k" /\ retarget1 rp "b.C" = "b.C" /\ option_map ce_sel (find_obj 1 reg') = Some "b.C".
+  Proof. intros reg' full rp H. vm_compute in H. inversion H; subst. repeat split; reflexivity. Qed.
+  Lemma respelled_class_is_latest_orig : forall reg' full rp,
+    get_configurable_orig cx_reg2 cx_ctx2 "a.C.k" = DOk (reg', full, rp) ->
+    full = "a.C.k" /\ retarget1 rp "b.C" = "a.C" /\ option_map ce_sel (find_obj 1 reg') = Some "a.C".
+  Proof. intros reg' full rp H. vm_compute in H. inversion H; subst. repeat split; reflexivity. Qed.
 
-  (* (4) refs_ok (every reference names the LATEST registration of its object) is not an invariant of a run:
-         `a.C.k.x = @b.C` first resolves the value b.C (registering the class as b.C), then the target a.C.k registers
-         the class again as a.C; the reference just created is not re-pointed (gin does not either: it is not yet in
-         the config when _register re-points).  It still names a registered selector of the same object. *)
-  Definition cx_univ : list (string * pyobj) := [("a", PMod [("C", cx_cls2)]); ("b", PMod [("C", cx_cls2)])].
-  Definition cx_stmts : list dstmt :=
-    [DImport {| d_module := "__gin__.dynamic_registration"; d_from := true; d_alias := None |};
-     DImport cx_da; DImport {| d_module := "b"; d_from := false; d_alias := None |};
-     DBind "" "a.C.k" "x" (DRef [] "b.C")].
-  Definition cx_s0 : dstate := {| ds_reg := []; ds_store := []; ds_imports := []; ds_dynamic_seen := false |}.
+  (* (4) refs_ok (every reference names the LATEST registration of its object) is not an invariant of a run: a file
+         WITHOUT dynamic registration resolves names through the registry, which hands back whatever selector matches:
+         with the class registered as a.C and, later, as b.C,  `b.C.x = @a.C`  records a reference to the older a.C.
+         It still names a registered selector of the same object. *)
+  Definition cx_stmts : list dstmt := [DBind "" "b.C" "x" (DRef [] "a.C")].
+  Definition cx_s0 : dstate := {| ds_reg := cx_reg2; ds_store := []; ds_imports := []; ds_dynamic_seen := false |}.
   Eval vm_compute in
-    let '(s', refs', _, e) := run_stmts cx_univ cx_stmts cx_s0 [] empty_ctx in
+    let '(s', refs', _, e) := run_stmts [] cx_stmts cx_s0 [] empty_ctx in
     (map (fun e => (ce_sel e, ce_obj e)) (ds_reg s'), refs', e, option_map ce_sel (find_obj 1 (ds_reg s'))).
   Theorem refs_ok_latest_not_invariant :
     refs_ok (ds_reg cx_s0) [] /\ reg_wf (ds_reg cx_s0) /\
-    exists s' refs' c', run_stmts cx_univ cx_stmts cx_s0 [] empty_ctx = (s', refs', c', None) /\ ~ refs_ok (ds_reg s') refs'.
+    exists s' refs' c', run_stmts [] cx_stmts cx_s0 [] empty_ctx = (s', refs', c', None) /\ ~ refs_ok (ds_reg s') refs'.
   Proof.
-    split; [intros x []|]. split; [constructor|].
-    destruct (run_stmts cx_univ cx_stmts cx_s0 [] empty_ctx) as [[[s' refs'] c'] e] eqn:E.
+    split; [intros x []|]. split; [exact cx_reg2_wf|].
+    destruct (run_stmts [] cx_stmts cx_s0 [] empty_ctx) as [[[s' refs'] c'] e] eqn:E.
     vm_compute in E. inversion E; subst s' refs' c' e. clear E.
     eexists. eexists. eexists. split; [reflexivity|].
     intro H. destruct (H _ (or_introl eq_refl)) as [e1 [Hs Hl]].
@@ -1520,6 +1581,7 @@ Print Assumptions follow_spec.
 Print Assumptions follow_attrs.
 Print Assumptions C19_missing_attribute.
 Print Assumptions C19_spelling_same_configurable.
+Print Assumptions C19_class_keeps_selector_via_method.
 Print Assumptions C19_isolation_table.
 Print Assumptions C19_isolation_ctx.
 Print Assumptions C19_table_from_own_imports.
@@ -1537,6 +1599,7 @@ Print Assumptions C19_references_keep_working_call.
 Print Assumptions C19_reference_object_preserved.
 Print Assumptions Counterexamples.method_selector_collision_is_error.
 Print Assumptions Counterexamples.C19_exact_object_orig_refuted.
-Print Assumptions Counterexamples.respelled_class_is_latest.
+Print Assumptions Counterexamples.respelled_class_keeps_latest.
+Print Assumptions Counterexamples.respelled_class_is_latest_orig.
 Print Assumptions Counterexamples.refs_ok_latest_not_invariant.
 Print Assumptions Counterexamples.static_result_not_latest.
